@@ -22,6 +22,11 @@ from . import lib, runner, callsym, seqsem
 ITEMS = ["o1", "o2", "o3"]
 
 
+def _budget():
+    from symx.core import task_budget
+    return task_budget()
+
+
 def all_calls():
     out = []
     for a in ITEMS:
@@ -157,7 +162,7 @@ def run_plan(task):
                 _cex(ctx, res, task, comp, sym_atoms, fl_all, "trajectory differs from the transition function: " + "; ".join(bad[:3]),
                      z3.Not(post))
 
-        explore(fn, on_path, stats=stats, max_paths=task.get("max_paths", 3000), timeout_ms=5000)
+        explore(fn, on_path, stats=stats, max_paths=task.get("max_paths", 3000), timeout_ms=5000, time_budget_s=_budget())
         if res["reached"] == 0 and res["outcome"] == "held":
             res["outcome"] = "vacuous"
     except Inconclusive as e:
